@@ -99,9 +99,11 @@ RT = [RU("cap_unit", depth=6), RU("cap_weight", weights=(0, 1, 2, 5), depth=5), 
       RS("cap2_tti", depth=7), RS("cap2_ttl_tti_w", weights=(1, 5), depth=6), RS("cap_const", weights=(1, 2), depth=6),
       RS("cap1", nkeys=3, depth=6)]
 VQ = [("unsync-small", 120, 40), ("unsync-mid", 30, 120), ("sync-small", 120, 40), ("sync-mid", 30, 120),
-      ("sync-eager", 40, 60), ("sync-far", 150, 16), ("sync-burst", 250, 3), ("sync-grow", 100, 2)]
+      ("sync-eager", 40, 60), ("sync-far", 150, 16), ("sync-burst", 250, 3), ("sync-grow", 100, 2),
+      ("unsync-batch", 6, 0), ("sync-batch", 2, 0)]
 VT = [("unsync-small", 2000, 60), ("unsync-mid", 400, 400), ("sync-small", 2000, 60), ("sync-mid", 400, 400),
-      ("sync-eager", 600, 120), ("sync-far", 6000, 20), ("sync-burst", 7000, 4), ("sync-grow", 1200, 2)]
+      ("sync-eager", 600, 120), ("sync-far", 6000, 20), ("sync-burst", 7000, 4), ("sync-grow", 1200, 2),
+      ("unsync-batch", 60, 0), ("sync-batch", 12, 0)]
 
 QSLICES = {
     "C01": ["cap2", "expiry2", "cap_const2", "s_cap1", "s_ttl_tti"],
@@ -380,6 +382,7 @@ def stage_v(ctx, runs):
         nkeys = json.loads(open(beh).readline())["cfg"]["nkeys"]
         judge_trace(ctx, name, trace, beh, nkeys, True, "random:%s seed=%d" % (profile, ctx.seed * 1000 + i),
                     layer_budget=(1500 if ctx.tier == "quick" else 12000) if profile.startswith("sync") else None)
+
         if len(ctx.samples) < 5:
             b = json.loads(open(beh).readline())
             ctx.samples.append({"kind": "random history (%s)" % profile, "cfg": b["cfg"], "ops": b["ops"][:25]})
@@ -682,6 +685,8 @@ def run_c15(ctx, plan):
     """Purity of contains_key / iter: an action property on Layer I, and metamorphic pairs on the code."""
     import random
     stage_mc(ctx, plan.get("mc", []))
+    # the direct clause (timers, recency, estimator) judged on ordinary histories
+    stage_v(ctx, plan.get("v", []))
     quick = ctx.tier == "quick"
     profiles = [("unsync-small", 150, 40), ("unsync-mid", 40, 150), ("sync-small", 150, 40), ("sync-mid", 40, 150),
                 ("sync-eager", 40, 60)]
@@ -789,7 +794,7 @@ def run_c15(ctx, plan):
 CONC_PROGS = {"ii": 2, "ii2": 2, "ixi": 2, "upd": 2, "rej": 2, "syncs": 2, "ia": 2, "wgt": 2, "xget": 2,
               "ttl": 2, "tti": 2, "three": 3, "three2": 3, "burst": 2, "ttix": 2, "grow": 2}
 CONC_QUICK = ["ii", "upd", "rej", "ixi", "wgt", "xget", "burst", "ttix", "grow"]
-CONC_LIGHT = ["ii", "upd", "wgt"]
+CONC_LIGHT = ["ii", "rej", "syncs", "grow"]
 
 
 def conc_constants(prog, emit, real, dev):
